@@ -105,8 +105,16 @@ class ServiceRegistry:
             if old_service_info is None:
                 continue
             assert old_service_info.server_key is not None
-            self.types[old_service_info.type.lower()].remove(info.key)
-            self.servers[old_service_info.server_key].remove(info.key)
+            # Drop a bucket once it is empty, otherwise a type without
+            # services is still answered for in service type enumeration
+            type_key = old_service_info.type.lower()
+            self.types[type_key].remove(info.key)
+            if not self.types[type_key]:
+                del self.types[type_key]
+            server_key = old_service_info.server_key
+            self.servers[server_key].remove(info.key)
+            if not self.servers[server_key]:
+                del self.servers[server_key]
             del self._services[info.key]
 
         self.has_entries = bool(self._services)
